@@ -84,6 +84,7 @@ let oracle_c13_case script trace =
                    meth (match mz_ep s with None -> "none" | Some _ -> "some"))
          end)
     | _ -> ()) script;
+  List.iter (fun l -> if is_bad_line l then fail ("crash " ^ l) else fail ("crash unexpected-line " ^ l)) !tr;
   !err
 
 let () =
